@@ -131,6 +131,15 @@ class Ctx:
                     self.proof_failures.append(f"theorem {name} depends on non-admitted axioms {axs}")
             if not self.obligations:
                 self.proof_failures.append("no theorems found in " + ",".join(namespaces))
+            # thorough tier: re-check the compiled property modules with the toolchain's independent
+            # .olean re-checker
+            if self.tier == "thorough" and not self.proof_failures:
+                for m in modules:
+                    rc, lout, dt = sh(["lake", "env", "leanchecker", m], cwd=LEAN, timeout=1800)
+                    self.log.write(f"$ leanchecker {m} [{dt:.1f}s rc={rc}]\n{lout[-2000:]}\n")
+                    self.cov.setdefault("leanchecker", {})[m] = "ok" if rc == 0 else "FAILED"
+                    if rc != 0:
+                        self.proof_failures.append(f"leanchecker rejected {m}: {lout[-500:]}")
         else:
             # count the obligations that exist in source so evidence shows obligations > discharged
             n = 0
